@@ -34,7 +34,7 @@ def build(scratch):
     return _built[scratch]
 
 
-def run_bin(name, scratch, args=(), stdin=None, timeout=120):
+def run_bin(name, scratch, args=(), stdin=None, timeout=120, env=None):
     bindir, err = build(scratch)
     if bindir is None:
         return {'ran': False, 'reason': 'native build of the real crates failed: ' + err[-500:]}
@@ -43,7 +43,9 @@ def run_bin(name, scratch, args=(), stdin=None, timeout=120):
         return {'ran': False, 'reason': 'no witness binary ' + name}
     import subprocess
     try:
-        pr = subprocess.run([p] + list(args), input=stdin, stdout=subprocess.PIPE, stderr=subprocess.PIPE, timeout=timeout)
+        e = dict(os.environ)
+        if env: e.update(env)
+        pr = subprocess.run([p] + list(args), input=stdin, stdout=subprocess.PIPE, stderr=subprocess.PIPE, timeout=timeout, env=e)
     except subprocess.TimeoutExpired:
         return {'ran': True, 'fails': True, 'output': 'TIMEOUT after %ds (hang)' % timeout}
     full = pr.stdout.decode('utf-8', 'replace')
